@@ -176,9 +176,26 @@ fn classify_err(msg: &str) -> &'static str {
     }
 }
 
+/// Deep copy in which every map is a SEPARATELY BUILT table (fresh `Map::new()`, entries inserted
+/// one by one): a `clone()` shares the table layout of its source, so equal maps made by cloning
+/// always iterate alike, which real inputs (two template literals, two serialized values) do not.
+fn rebuild(v: &Value) -> Value {
+    match v.kind() {
+        ValueKind::Array => Value::from(v.as_array().unwrap().iter().map(rebuild).collect::<Vec<Value>>()),
+        ValueKind::Map => {
+            let mut m = Map::new();
+            for (k, x) in v.as_map().unwrap().iter() {
+                m.insert(k.clone(), rebuild(x));
+            }
+            Value::from(m)
+        }
+        _ => v.clone(),
+    }
+}
+
 fn run(tera: &Tera, c: &Case) -> Out {
     let mut ctx = Context::new();
-    ctx.insert_value("v", c.v.clone());
+    ctx.insert_value("v", rebuild(&c.v));
     match &c.arg {
         Arg::None => {}
         Arg::Str(s) => ctx.insert_value("arg", Value::normal_string(s)),
@@ -942,6 +959,39 @@ fn gen_nested_prefix(rng: &mut Rng) -> Value {
     Value::from(base)
 }
 
+/// copies of a few maps with 2..16 INTEGER / BOOL keys (plus now and then a string key), some
+/// with one value changed or one key written in another integer width, bare or nested in an
+/// array: equal maps that were built separately must be one `==` class for `unique` and `sort`
+fn gen_intkey_map(rng: &mut Rng) -> Value {
+    let which = rng.below(3) as i128;
+    let n = [2usize, 3, 10, 16][rng.below(4)];
+    let mut es: Vec<(Value, Value)> = Vec::new();
+    for i in 0..n as i128 {
+        let k = if i == 0 && which == 1 {
+            Value::from(true)
+        } else if i == 1 && which == 2 {
+            Value::from(false)
+        } else {
+            // same mathematical key, random width
+            enc_int(rng, i * 3 - 4 + which, false)
+        };
+        es.push((k, enc_int(rng, i % 3, true)));
+    }
+    if rng.chance(1, 4) {
+        es.push((Value::normal_string("s"), Value::normal_string("t")));
+    }
+    if rng.chance(1, 5) {
+        let i = rng.below(es.len());
+        es[i].1 = Value::normal_string("changed");
+    }
+    let m = map_of(es);
+    match rng.below(5) {
+        0 => Value::from(vec![m]),
+        1 => Value::from(vec![m, enc_int(rng, 1, true)]),
+        _ => m,
+    }
+}
+
 fn map_of(entries: Vec<(Value, Value)>) -> Value {
     let mut m = Map::new();
     for (k, v) in entries {
@@ -984,6 +1034,7 @@ enum Profile {
     NestedComparable,
     NestedOdd,
     NestedPrefix,
+    IntKeyMaps,
     Maps,
     Mixed,
 }
@@ -1008,6 +1059,7 @@ fn gen_elem(rng: &mut Rng, p: Profile) -> Value {
             }
         }
         Profile::NestedPrefix => gen_nested_prefix(rng),
+        Profile::IntKeyMaps => gen_intkey_map(rng),
         Profile::Maps => small_map(rng),
         Profile::Mixed => {
             let q = *rng.pick(&[
@@ -1020,6 +1072,7 @@ fn gen_elem(rng: &mut Rng, p: Profile) -> Value {
                 Profile::NestedComparable,
                 Profile::NestedOdd,
                 Profile::NestedPrefix,
+                Profile::IntKeyMaps,
                 Profile::Maps,
                 Profile::Floats,
             ]);
@@ -1045,7 +1098,7 @@ fn gen_elems(rng: &mut Rng, n: usize, benign: bool) -> Vec<Value> {
             Profile::NestedComparable,
         ])
     } else {
-        *rng.pick(&[Profile::Mixed, Profile::Mixed, Profile::Mixed, Profile::NestedOdd, Profile::NestedOdd, Profile::NestedPrefix, Profile::NestedPrefix, Profile::Maps, Profile::Numbers, Profile::Strings])
+        *rng.pick(&[Profile::Mixed, Profile::Mixed, Profile::Mixed, Profile::NestedOdd, Profile::NestedOdd, Profile::NestedPrefix, Profile::NestedPrefix, Profile::IntKeyMaps, Profile::IntKeyMaps, Profile::Maps, Profile::Numbers, Profile::Strings])
     };
     let mut xs: Vec<Value> = (0..n).map(|_| gen_elem(rng, p)).collect();
     if rng.chance(1, 4) {
@@ -1432,6 +1485,22 @@ fn fixed_cases() -> Vec<Case> {
     ]);
     for f in ["unique", "sort"] {
         out.push(Case::new(f, prefixes.clone(), Arg::None));
+    }
+    // equal maps with many integer / bool keys, built separately (see `rebuild`): one class
+    let big = |w: u8| {
+        map_of((0..14u64).map(|i| {
+            let k = match (w, i) {
+                (_, 0) => Value::from(true),
+                (0, _) => Value::from(i),
+                (1, _) => Value::from(i as i64),
+                _ => Value::from(i as u128),
+            };
+            (k, u(i % 3))
+        }).collect())
+    };
+    let copies = Value::from(vec![big(0), big(1), big(0), Value::from(vec![big(2)]), big(2), Value::from(vec![big(0)])]);
+    for f in ["unique", "sort"] {
+        out.push(Case::new(f, copies.clone(), Arg::None));
     }
     for (t, p) in [("aaa", "aa"), ("ababa", "aba"), ("", ""), ("ab", ""), ("", ","), (",", ","), ("é日", "")] {
         out.push(Case::new("split", s(t), Arg::Str(p.into())));
